@@ -1,0 +1,27 @@
+//go:build verif
+
+package ecdsa
+
+// Contracts for the deductive checker in /verif (comment-only; compiled only under the verif tag).
+
+// The verifier accepts only if ALL of these hold: both arguments present; in strict mode the signature is
+// normalised (low s); when a recovery id is attached, public-key recovery succeeds AND yields exactly this key;
+// the standard-library ECDSA check (crypto/ecdsa.Verify) accepts (r, s) for the digest of exactly this message under exactly this key.
+//@ func (*Verifier).Verify
+//@   property C15, C01
+//@   purefn
+//@   ensures result == nil ==> s != nil && pk != nil
+//@   ensures (result == nil && v.mustBeNonMalleable) ==> s.IsNormalized()
+//@   ensures (result == nil && s.v != nil) ==> res(RecoverPublicKey(v.suite, s, m), 1) == nil && res(RecoverPublicKey(v.suite, s, m), 0).Equal(pk)
+//@   ensures result == nil ==> res(hashing.Hash(v.suite.hashFunc, m), 1) == nil && res(pk.ToElliptic(), 1) == nil
+//@   ensures result == nil ==> ecdsa.Verify(res(pk.ToElliptic(), 0), res(hashing.Hash(v.suite.hashFunc, m), 0), res(s.ToElliptic(), 0), res(s.ToElliptic(), 1))
+
+// Low-s normalisation: an already normalised signature is left alone; otherwise s is replaced by -s (= n - s),
+// r is kept and an attached recovery id has exactly its parity bit flipped.
+//@ func (*Signature).Normalise
+//@   property C15
+//@   ensures old(sig.IsNormalized()) ==> sig.s == old(sig.s) && sig.v == old(sig.v)
+//@   ensures !old(sig.IsNormalized()) ==> sig.s == old(sig.s).Neg()
+//@   ensures (!old(sig.IsNormalized()) && old(sig.v) != nil) ==> sig.v != nil && *sig.v == old(*sig.v) ^ 1
+//@   ensures (!old(sig.IsNormalized()) && old(sig.v) == nil) ==> sig.v == nil
+//@   ensures sig.r == old(sig.r)
